@@ -748,6 +748,40 @@ fn mutate(base: &[u8], w: &Walk, m: &J) -> (Vec<u8>, J) {
             ev["fields"] = json!(fs);
             fix_crc(&mut b);
         }
+        "twin" => {
+            // two sibling entries made to carry the same name (or the same reference): the value of one `...name_idx` /
+            // index field copied onto another field of the same kind (two tasks of one name, two variables, two POUs):
+            // every index stays inside its table, so validation has no reason to object
+            let mut groups: std::collections::BTreeMap<(String, String), Vec<usize>> = std::collections::BTreeMap::new();
+            for (i, f) in w.fields.iter().enumerate() {
+                if (f.cls == "index" || f.cls == "optindex") && (f.sec == "RESOURCE_META" || leaf(&f.path).ends_with("name_idx")) {
+                    groups.entry((f.sec.to_string(), leaf(&f.path))).or_default().push(i);
+                }
+            }
+            let cands: Vec<&Vec<usize>> = groups.values().filter(|g| g.len() >= 2).collect();
+            if !cands.is_empty() {
+                let want_tasks = m["tasks"].as_bool().unwrap_or(false);
+                let g = match groups.iter().find(|((sec, l), g)| want_tasks && sec == "RESOURCE_META" && l == "tasks.name_idx" && g.len() >= 2) {
+                    Some((_, g)) => g,
+                    None => cands[(k % cands.len() as u64) as usize],
+                };
+                let k2 = m["k2"].as_u64().unwrap_or(1) as usize;
+                let a = &w.fields[g[k2 % g.len()]];
+                let bidx = g[(k2 % g.len() + 1 + (k2 / 7) % (g.len() - 1)) % g.len()];
+                let bf = &w.fields[bidx];
+                if a.off != bf.off && a.old != bf.old {
+                    put(&mut b, bf.off, bf.width, a.old);
+                    let fj = field_json(bf, "twin", a.old);
+                    ev["single"] = json!(true);
+                    for key in ["sec", "cls", "leaf", "newc", "rem"] {
+                        ev[key] = fj[key].clone();
+                    }
+                    ev["vc"] = json!("twin");
+                    ev["fields"] = json!([fj]);
+                    fix_crc(&mut b);
+                }
+            }
+        }
         "cycle" => {
             // a type whose definition refers to itself (alias / subrange / array element / struct
             // field), and a constant of that type: the recursive constant-payload walk of the
@@ -1063,6 +1097,7 @@ fn gen_mut(rng: &mut StdRng) -> J {
             let cls = ch(rng, &["count", "index", "offset", "jump"]);
             json!({"kind": "pair", "m1": {"sec": sec, "cls": "*", "k": k, "vc": vc}, "m2": {"sec": "*", "cls": cls, "k": k2, "vc": hot}})
         }
+        95..=96 => json!({"kind": "twin", "k": k, "k2": k2 % 1000, "tasks": rng.gen_bool(0.5)}),
         _ => {
             let via = ch(rng, &["alias", "alias", "subrange", "array", "field"]);
             json!({"kind": "cycle", "via": via, "k": k, "k2": k2 % 1000, "retarget": rng.gen_bool(0.8), "detach": rng.gen_bool(0.5)})
@@ -1132,6 +1167,9 @@ pub fn gen(args: &[String]) -> i32 {
                 line(json!({"kind": "pair", "m1": {"sec": "HEADER", "cls": "hdr", "k": 2, "vc": "0"},
                             "m2": {"sec": sec, "cls": "count", "k": k, "vc": vc}}));
             }
+        }
+        for k in 0..10u64 {
+            line(json!({"kind": "twin", "k": k, "k2": k * 3 + 1, "tasks": k % 2 == 0}));
         }
         for via in ["alias", "subrange", "array", "field"] {
             for k in 0..4u64 {
